@@ -102,6 +102,12 @@ def gen_universe(rng, shape):
         for n in rng.sample(names, rng.randint(1, len(names))):
             cons.append(rng.choice(SPELL[n]) + "==" + rng.choice(sorted(U[n]) + GL.VERS[:1]))
         constraints = [cons]
+    elif k < 0.38:
+        # several constraint files, loose and fully pinned ones in either order
+        loose = [rng.choice(SPELL[rng.choice(names)]) + (gen_spec(rng, 1.0) or "<9") for _ in range(rng.randint(1, 2))]
+        loose = [t for t in loose if "==" not in t or t.endswith(".*")] or [rng.choice(SPELL[names[0]]) + "<9"]
+        pinned = [rng.choice(SPELL[n]) + "==" + rng.choice(sorted(U[n])) for n in rng.sample(names, rng.randint(1, min(2, len(names))))]
+        constraints = [loose, pinned] if rng.random() < 0.6 else [pinned, loose]
     return {"shape": shape, "universe": U, "inputs": inputs, "constraints": constraints,
             "remove_constraints": rng.random() < 0.15}
 
